@@ -14,6 +14,7 @@ from __future__ import annotations
 import concurrent.futures as cf
 import json
 import os
+import re
 import shutil
 import subprocess
 import sys
@@ -30,7 +31,7 @@ import _c18_stub as S  # noqa: E402
 SRC = ["src/pynguin/testcase/export.py", "src/pynguin/assertion/assertion_to_ast.py", "src/pynguin/generator.py",
        "src/pynguin/assertion/assertiontraceobserver.py", "src/pynguin/testcase/testcase.py"]
 SUT_DIR = vlib.VERIF / "corpus" / "C18" / "sut"
-SUT_MODULES = ["numeric", "strings", "containers", "state", "enums", "floats", "rnd", "errors", "shapes.area", "foreign", "exits", "kwclash", "declared", "rndkey"]
+SUT_MODULES = ["numeric", "strings", "containers", "state", "enums", "floats", "rnd", "errors", "shapes.area", "foreign", "exits", "kwclash", "declared", "rndkey", "summary"]
 MODES = ["MUTATION_ANALYSIS", "SIMPLE", "NONE", "CHECKED_MINIMIZING"]
 GEN = str(Path(__file__).resolve().parent / "_c18_gen.py")
 
@@ -335,6 +336,18 @@ def run(ctx: vlib.Ctx):
                 for e in res["errors"]:
                     if e.startswith("Export"):
                         ctx.count("e2e:export-failed:" + e.split("|")[-1])
+            if res["status"] in ("crash", "nofile"):
+                # the generation of a deterministic corpus module ended without a test file
+                detail = res.get("detail") or "; ".join(res.get("errors", []))
+                m_ = re.findall(r"\b([A-Z]\w*(?:Error|Exception))\b", detail)
+                sig = f"generation-{'crashed' if res['status'] == 'crash' else 'wrote-no-file'}:{m_[-1] if m_ else 'unknown'}"
+                e2e_fail += 1
+                if sig not in seen_sig:
+                    seen_sig.add(sig)
+                    ctx.fail(sig, f"generating tests for corpus module {job[0]} (seed {job[1]}, {job[2]}) produced no test file: {detail[-400:]}",
+                             {"kind": "e2e", "job": list(job), "written_file": None,
+                              "module_source": (SUT_DIR / (job[0].replace(".", "/") + ".py")).read_text()})
+                continue
             if res["status"] != "ok":
                 continue
             ctx.case_seen(("e2e", job, res["src"]), nontrivial=res["tests"] > 0)
@@ -392,6 +405,8 @@ def replay(ctx, path):
     else:
         res = e2e_job(tuple(d["job"]), ctx.repo, scratch)
         print("fresh generation:", {k: v for k, v in res.items() if k != "src"})
+        if not d.get("written_file"):
+            return 0
         fn = "test_replayed.py"
         (scratch / fn).write_text(d["written_file"])
         pr = L.run_pytest([fn], str(scratch), [str(SUT_DIR)])
